@@ -81,11 +81,42 @@ func checkTSNullable(w *World, r *Result) {
 			if !ok || fullName(calleeOf(info, call)) != "fmt.Sprintf" {
 				return true
 			}
-			format, _ := verbArgs(info, call)
+			format, vas := verbArgs(info, call)
 			fixed := false
+			swVar := info.Implicits[cc]
 			for _, c := range pathConds(fi.Decl, ret) {
-				if c.expr != nil && strings.Contains(es(c.expr), ".Len") && c.truth && c.exit == nil {
-					fixed = true
+				if c.expr == nil || !c.truth || c.exit != nil {
+					continue
+				}
+				// a test of the Len of the node itself (not of a child's)
+				ast.Inspect(c.expr, func(y ast.Node) bool {
+					if sel, ok := y.(*ast.SelectorExpr); ok && sel.Sel.Name == "Len" {
+						if id := identOf(sel.X); id != nil && swVar != nil && objOf(info, id) == swVar {
+							fixed = true
+						}
+					}
+					return true
+				})
+			}
+			// compositional printing: every hole is the printer applied to a direct child of the node, so that the
+			// child's own nullability and aliasing are kept
+			for _, va := range vas {
+				if va.arg == nil {
+					continue
+				}
+				direct := false
+				if c2, ok := ast.Unparen(va.arg).(*ast.CallExpr); ok && calleeOf(info, c2) == fi.Obj && len(c2.Args) == 1 {
+					if sel, ok := ast.Unparen(c2.Args[0]).(*ast.SelectorExpr); ok {
+						if id := identOf(sel.X); id != nil && swVar != nil && objOf(info, id) == swVar {
+							direct = true
+						}
+					}
+				}
+				if sel, ok := ast.Unparen(va.arg).(*ast.SelectorExpr); ok && sel.Sel.Name == "Len" {
+					direct = true // the length in the alias name
+				}
+				if !direct {
+					r.bad("AGR-C03b", fi.Name, "case "+kind+": hole "+es(va.arg), w.Pos(ret.Pos()), "the type of a "+strings.TrimPrefix(kind, "*an.")+" is not built from typeName of its direct children: a level is skipped, so what that level prints (`| null` for a nested slice or map, the alias of a fixed array) is lost and the documents Go emits for it do not inhabit the type")
 				}
 			}
 			cons := "case " + kind + ": " + strings.TrimSpace(format)
